@@ -302,6 +302,9 @@ theorem k_encEncode_eq (F : GF.GF) (hF : TablesOK F) (cache : List Poly) (hc : C
 
 /-! non-vacuity: a fresh encoder satisfies `CacheOK` (its cache is `[1]` = g_0); the remaining hypotheses of `k_encEncode_eq`
     are instantiated for every well-formed field and block shape in Obligations/K04bProps.lean (`gen_encode_systematic`) -/
-example : CacheOK GF.aztecParam [[1]] := ⟨by simp, fun i hi => by have : i = 0 := by simpa using hi; subst this; rfl⟩
+example : CacheOK GF.aztecParam [[1]] := by
+  refine ⟨by simp, fun i hi => ?_⟩
+  have : i = 0 := by simpa using hi
+  subst this; rfl
 
 end Gzx.Obligations.K04bEnc
